@@ -1,10 +1,10 @@
-\* C19 keybase, thorough: 3 keys (2 held by the client, 1 created inside), 3 passphrases, at most 3 exported
+\* C19 keybase, thorough: 3 keys (2 held by the client, 1 created inside), 4 passphrases (e, w, u, v), at most 2 exported
 \* armors kept; every transition is checked against StepOK (VIEW leaves the label and the history out)
 CONSTANTS
     NK = 3
     NKnown = 2
-    Passes = {"e", "u", "l"}
-    MaxArm = 3
+    Passes = {"e", "w", "u", "v"}
+    MaxArm = 2
     Depth = 0
 SPECIFICATION Spec
 VIEW View
